@@ -11,7 +11,9 @@ CONSTANTS Types, Mode, NCase
 VARIABLES c, k
 vars == <<c, k>>
 Order == [plane |-> 0, sphere |-> 2, capsule |-> 3, ellipsoid |-> 4, cylinder |-> 5, box |-> 6]
-Poses == {"separated", "margin", "touching", "shallow", "deep"}
+Poses == {"separated", "margin", "touching", "shallow", "deep", "engulfed"}
+\* engulfed: the centre of a sphere lies inside the other geom (the analytic routines then have to choose the nearer face / cap / side)
+PoseFor(a, b) == LET p == RandomElement(Poses) IN IF p = "engulfed" /\ ~("sphere" \in {a, b} /\ "plane" \notin {a, b}) THEN "deep" ELSE p
 Max(a, b) == IF a >= b THEN a ELSE b
 \* expected contact parameters (condim, friction as integers in tenths)
 MixCondim(x) == IF x.explicit THEN x.pair.condim ELSE IF x.g1.priority > x.g2.priority THEN x.g1.condim ELSE IF x.g2.priority > x.g1.priority THEN x.g2.condim ELSE Max(x.g1.condim, x.g2.condim)
@@ -25,7 +27,7 @@ Geom(u) == [condim |-> RandomElement({1, 3, 4, 6}), priority |-> RandomElement({
             solmix |-> RandomElement({1, 3})]
 RandCase(u) ==
   LET a == RandomElement(Types)  b == RandomElement(Types \ {"plane"}) IN
-  [t1 |-> IF Order[a] <= Order[b] THEN a ELSE b, t2 |-> IF Order[a] <= Order[b] THEN b ELSE a, pose |-> RandomElement(Poses), g1 |-> Geom(1), g2 |-> Geom(2),
+  [t1 |-> IF Order[a] <= Order[b] THEN a ELSE b, t2 |-> IF Order[a] <= Order[b] THEN b ELSE a, pose |-> PoseFor(a, b), g1 |-> Geom(1), g2 |-> Geom(2),
    explicit |-> RandomElement({FALSE, FALSE, FALSE, TRUE}), pair |-> [condim |-> RandomElement({1, 3, 4}), friction |-> RandomElement({5, 9}), margin |-> RandomElement({0, 6})]]
 Init == c = RandCase(0) /\ k = 1
 Next == k < NCase /\ c' = RandCase(k) /\ k' = k + 1
